@@ -1,10 +1,12 @@
 //! `vh-small` — small sequential machines (DESIGN §3.6): CStrWriter (C47), KeyStore (C45) ...
+mod cli;
 mod cstr;
 mod keystore;
 
 fn main() {
     let args = vrt::Args::parse();
     match args.sub.as_str() {
+        "cli" => cli::run(&args),
         "cstr" => cstr::run(&args),
         "keystore" => keystore::run(&args),
         s => vrt::die(&format!("unknown subcommand {s}")),
